@@ -88,6 +88,8 @@ def tup(d):
     """JSON round trip turns tuples into lists: normalise back to nested tuples"""
     if isinstance(d, (list, tuple)):
         return tuple(tup(x) for x in d)
+    if isinstance(d, dict):
+        return {k: tup(v) for k, v in d.items()}
     return d
 
 
